@@ -40,6 +40,16 @@ CHECKS = {
         "Denotation clause only for grammar-clean headers; lenient extraction from other text is judged by the structural clause "
         "and the exception class. Either rejection accepted when a header is both malformed and unsatisfiable.",
     ),
+    "C05": (
+        "fault_enumeration",
+        "Hypothesis response recipes x enumerated fault points (disconnect after every k-th send, close after every k-th item, producer exceptions) judged by prefix-closed protocol automata of strict WSGI/ASGI gateways",
+        "Generated recipes for all eight response classes (status codes incl. unassigned, header sets/operations, cookies, text/bytes/JSON, "
+        "iterables with empty chunks, files with non-ASCII names, Range requests incl. rejected ones, HEAD) are sent through strict gateways: "
+        "fault-free runs must be complete legal sequences; then for EVERY k the ASGI client disconnects after the k-th send (send swallowing "
+        "or raising OSError) and the WSGI server closes the iterable after k items, and streaming producers raise at generated steps; what was "
+        "emitted must be a legal prefix. All status codes 100..599 are swept in the thorough tier.",
+        "Unrenderable constructor arguments and hop-by-hop header names are caller errors and not generated.",
+    ),
     "C06": (
         "fault_enumeration",
         "exhaustive schedule enumeration with a gated producer / consumer thread / watchdog (WSGI) and Hypothesis + exhaustive disconnect-instant grid on a virtual-time event loop (ASGI); invariants over the history",
